@@ -194,11 +194,11 @@ def run(ctx: core.Ctx) -> int:
     # first reading makes fit escape with KeyError instead of the library's minimisation error)
     ctx.rule("RECORDS", "sensor_model writes both records unconditionally before any return (shared with C16)")
     scr = scenarios.PyEKF(ctx, prog, run=("sensor_model",))
-    evs = [e for e in scr.it.events if e["func"] == "ExtendedKalmanFilter.sensor_model"]
+    evs = scenarios.events_of(scr.it, "ExtendedKalmanFilter.sensor_model")
     first_ret = min((e["seq"] for e in evs if e["kind"] == "return"), default=None)
     for nm in ("innovations", "sensor_prediction_uncertainty"):
         st = [e for e in evs if e["kind"] == "store" and f"self.{nm}[" in e.get("target", "")]
-        okr = bool(st) and all(not e["path"] for e in st) and first_ret is not None and all(e["seq"] < first_ret for e in st)
+        okr = bool(st) and all(not e["rpath"] for e in st) and first_ret is not None and all(e["seq"] < first_ret for e in st)
         ctx.oblige("RECORDS", f"{F}:ExtendedKalmanFilter.sensor_model", f"self.{nm}[key] stored unconditionally before the first return", okr, file=F,
                    func="ExtendedKalmanFilter.sensor_model", construct=f"record {nm}",
                    msg=f"sensor_model does not refresh self.{nm}[sensor_key] on every call: when a sensor's first reading is rejected, transform (and so "
